@@ -43,7 +43,14 @@ def check_one(src: str, mode: str, variant: str = "shipped"):
         return {"skip": "fstring"}
     tree, o = impl.parse_tree(src, mode, variant=variant)
     if tree is None:
-        return {"kind": "rejected", "outcome": {k: v for k, v in o.items() if k != "dump"}}
+        out = {"kind": "rejected", "outcome": {k: v for k, v in o.items() if k != "dump"}}
+        import re as _re0
+
+        if o.get("k") == "err" and _re0.search(r"\r(?!\n)", src):
+            out["class"] = "lone-cr"  # CPython reads a bare CR as a line end; here it is an ERRORTOKEN (KF-C08-lone-cr)
+        elif o.get("k") == "err" and any(("a" + ch).isidentifier() and not _re0.match(r"\w", ch) for ch in set(src) if ord(ch) > 127):
+            out["class"] = "other-id-chars"  # Other_ID_Start / Other_ID_Continue / marks: `Name = \w+`
+        return out
     diffs = impl.ast_diff(tree, ref)
     if not diffs:
         return None
@@ -105,7 +112,8 @@ def build_inputs(tier: str):
         cases.append((f"indent{i}", s, "exec", ["indent"]))  # blanks, tabs and form feeds in the indentation
     for i, s in enumerate(corpus.string_mixes() + corpus.pattern_spellings()):
         cases.append((f"mix{i}", s, "exec", ["source-form"]))
-    for i, s in enumerate(["if a:\n  b\n\\\n  c\n", "def f():\n    x = 1\n\\\n    return x\n", "\u210c = 1\n", "x = \ufb01le\n", "def \u2102(\u2115): return \u2115\n", "import \u1d2c as \uff42\n"]):
+    for i, s in enumerate(["if a:\n  b\n\\\n  c\n", "def f():\n    x = 1\n\\\n    return x\n", "\u210c = 1\n", "x = \ufb01le\n", "def \u2102(\u2115): return \u2115\n", "import \u1d2c as \uff42\n",
+                           "x = 1\ry = 2\n", "x = 1\r", "a\u00b7b = 1\n", "\u2118 = 1\n"]):
         cases.append((f"kfwitness{i}", s, "exec", ["kf-neighbourhood"]))
     for i, s in enumerate(corpus.FINAL_LINE_FORMS):
         cases.append((f"finalline{i}", s, "exec", ["final-line"]))
@@ -166,6 +174,12 @@ def run(rep, tier, pool, variants=("shipped",)):
                 continue
             if out.get("class") == "nfkc-identifier":
                 rep.known("KF-C01-nfkc-identifier", "identifiers are not NFKC-normalised (first seen: " + short(src, 60) + ")")
+                continue
+            if out.get("class") == "lone-cr":
+                rep.known("KF-C01-lone-cr", "a bare CR is not a line end here (first seen: " + short(src, 60) + ")")
+                continue
+            if out.get("class") == "other-id-chars":
+                rep.known("KF-C01-other-id-chars", "identifier characters outside \\w (Other_ID_Start/Continue) are refused (first seen: " + short(src, 60) + ")")
                 continue
             if out.get("class") == "nonascii-columns":
                 rep.known("KF-C01-nonascii-columns", "AST columns are characters, CPython's are UTF-8 bytes (first seen: " + short(src, 60) + ")")
